@@ -267,7 +267,7 @@ def check_contracts(ctx, F):
         if er is None:
             ctx.unresolved('R6', role, efn.defpath, 'query function has several paths', key=key)
             continue
-        E = er.ret
+        E = rules.inline_pure(F, er.ret)      # the count may be computed by a private pure helper shared by the sibling queries
         base = cursor_base(opfn)
         if base is not None:
             verdict, txt, cell = cursor_contract(kind, E, opfn, oev, opaths, base)
